@@ -21,11 +21,22 @@
   code's `OrderedDict` at its LAST; with distinct cue labels both agree, so the
   hypothesis marks where the model is known to be the code.
 
-  By construction, not theorems: `n_jobs` and the shared-memory path are absent
-  from the model (the multi-process path computes the same per-event columns;
-  `events_independent` only says that the model treats events independently).
+  Multi-process path (`n_jobs >= 2`, PyndlModel/ActivationMP.lean): a flat shared
+  buffer of `n_outcomes * n_events` cells, one task per event writing the cells
+  `i * n_events + k` of its column, the tasks executed in an ARBITRARY completion
+  order (a permutation of the event indices — `Pool.starmap` running every task
+  exactly once is trusted, DESIGN §2):
+  * `activation_mp_eq_single` — for every permutation and every initial buffer
+    content the multi-process model returns/raises what `activationMatrix` does;
+  * `mp_cells_written_once` — the run never stores outside the buffer, every
+    flat cell is written exactly once, the reshaped buffer holds the
+    single-process columns; `mp_initial_content_irrelevant`;
+  * `activation_mp_spec` — hence the cue-wise sums of `activation_matrix_spec`;
+  * `mp_dropped_tail_differs` — a schedule that drops the last
+    `len % n_jobs` events (seeded change C12_b) does NOT give the matrix.
 -/
 import PyndlProofs.Activation
+import PyndlProofs.ActivationMP
 import PyndlModel.Generated
 
 set_option linter.unusedVariables false  -- `hnc` delimits model = code, the proofs do not use it
@@ -156,8 +167,8 @@ theorem paths_agree (w : LW R) (o : String) (cs : List String) :
     funext c; exact dictFromLW_abs w o c
   rw [this]
 
-/-- events are processed independently by the model (the multi-process path of
-    the code is not modelled: see the file header) -/
+/-- events are processed independently by the model (a list homomorphism; the
+    multi-process path of the code is modelled separately: `activation_mp_eq_single`) -/
 theorem events_independent (p : DupPolicy) (ig : Bool) (w : LW R) (xs ys : List (List String))
     (a b : List (List R)) (ha : activationMatrix p ig w xs = .ok a) (hb : activationMatrix p ig w ys = .ok b) :
     activationMatrix p ig w (xs ++ ys) = .ok (a ++ b) :=
@@ -270,6 +281,145 @@ example :
   ndl_step_delta ⟨.dedup, .openmp, 1, 2⟩ 1 1 1 5 exW (by decide) (by decide)
     ⟨["a", "c", "c"], ["x"]⟩ ⟨["a", "c"], ["x"]⟩ (by decide +kernel) (by decide +kernel)
     ⟨by decide, by decide +kernel, by decide +kernel, by decide⟩ (by decide)
+
+/-! ### the multi-process path (`n_jobs >= 2`) -/
+
+/-- **multi-process = single-process, for every completion order.**  For every
+    labelled matrix `w`, duplicate policy, `ignore_missing_cues`, list of events,
+    every `order` that is a permutation of the event indices `0 … n_events-1`
+    (each task exactly once — `starmap`'s guarantee, trusted) and every initial
+    content `init` of the shared buffer (`n_outcomes * n_events` cells): the model
+    of the `n_jobs >= 2` path (`activationMatrixMP`: index tuples in the parent,
+    one column-write task per event on the flat buffer, reshape) returns exactly
+    the matrix — or raises exactly the error — of the single-process model
+    `activationMatrix`.  No hypothesis on the labels. -/
+theorem activation_mp_eq_single {S : Type} [Add S] [Zero S] (p : DupPolicy) (ig : Bool) (w : LW S)
+    (evs : List (List String)) (order : List Nat) (init : Array S)
+    (hperm : order.Perm (List.range evs.length))
+    (hsize : init.size = w.outcomes.length * evs.length) :
+    activationMatrixMP p ig w evs order init = activationMatrix p ig w evs :=
+  activationMatrixMP_eq p ig w evs order init hperm hsize
+
+/-- **every cell written exactly once, none outside the buffer.**  For index
+    tuples `tasks` (one per event), a permutation `order` of the event indices
+    and an initial buffer of `n_outcomes * n_events` cells: the pool run succeeds
+    (`some`: no store hit a cell that does not exist — `MPBuf.write` reports such
+    a store with `none`), the buffer keeps its size, the trace of written flat
+    cells is a permutation of ALL cells `0 … n_outcomes*n_events-1` — so every
+    cell is written exactly once (`count = 1`) and no other cell at all
+    (`count = 0`) — and the buffer read with shape `(n_outcomes, n_events)` is,
+    transposed, the list of single-process columns; entry `(i, k)` of what the
+    code returns is entry `(k, i)` of the model's orientation. -/
+theorem mp_cells_written_once {S : Type} [Add S] [Zero S] (w : LW S) (tasks : List (List Nat))
+    (order : List Nat) (init : Array S)
+    (hperm : order.Perm (List.range tasks.length))
+    (hsize : init.size = w.outcomes.length * tasks.length) :
+    ∃ b, mpRun w tasks order ⟨init, []⟩ = some b ∧
+      b.cells.size = w.outcomes.length * tasks.length ∧
+      b.written.Perm (List.range (w.outcomes.length * tasks.length)) ∧
+      (∀ d, b.written.count d = if d < w.outcomes.length * tasks.length then 1 else 0) ∧
+      mpByEvent w.outcomes.length tasks.length b.cells = tasks.map (actColumn w) ∧
+      ∀ i k, i < w.outcomes.length → k < tasks.length →
+        ((mpByOutcome w.outcomes.length tasks.length b.cells).getD i []).getD k 0
+          = (actColumn w (tasks.getD k [])).getD i 0 := by
+  obtain ⟨b, h, hs, hw, hM⟩ := mpRun_eq_columns w tasks order init hperm hsize
+  refine ⟨b, h, hs, hw, ?_, hM, ?_⟩
+  · intro d
+    rw [hw.count_eq d]
+    by_cases hd : d < w.outcomes.length * tasks.length
+    · rw [if_pos hd]; exact List.count_eq_one_of_mem List.nodup_range (List.mem_range.mpr hd)
+    · rw [if_neg hd]; exact List.count_eq_zero_of_not_mem (fun hm => hd (List.mem_range.mp hm))
+  · intro i k hi hk
+    rw [mpByOutcome_transpose _ _ _ i k hi hk, hM]
+    simp [List.getD_eq_getElem?_getD, List.getElem?_map, List.getElem?_eq_getElem hk]
+
+/-- **the initial content of the shared buffer is irrelevant** (the code gets
+    zeros from `RawArray`; any other content of the right size gives the same
+    result), and so is the completion order: two runs agree -/
+theorem mp_initial_content_irrelevant {S : Type} [Add S] [Zero S] (p : DupPolicy) (ig : Bool) (w : LW S)
+    (evs : List (List String)) (order order' : List Nat) (init init' : Array S)
+    (hperm : order.Perm (List.range evs.length)) (hperm' : order'.Perm (List.range evs.length))
+    (hsize : init.size = w.outcomes.length * evs.length)
+    (hsize' : init'.size = w.outcomes.length * evs.length) :
+    activationMatrixMP p ig w evs order init = activationMatrixMP p ig w evs order' init' := by
+  rw [activation_mp_eq_single p ig w evs order init hperm hsize,
+    activation_mp_eq_single p ig w evs order' init' hperm' hsize']
+
+/-- **the multi-process path returns the cue-wise sums** (`activation_matrix_spec`
+    for `n_jobs >= 2`): if the multi-process model returns `M` for some
+    permutation `order` and some initial buffer, every event was accepted and
+    `M[k][i] = Σ_{c ∈ contributing cues of event k} w[outcome i, c]`. -/
+theorem activation_mp_spec (p : DupPolicy) (ig : Bool) (w : LW R) (hno : w.outcomes.Nodup)
+    (hnc : w.cues.Nodup) (evs : List (List String)) (order : List Nat) (init : Array R)
+    (hperm : order.Perm (List.range evs.length))
+    (hsize : init.size = w.outcomes.length * evs.length) (M : List (List R))
+    (h : activationMatrixMP p ig w evs order init = .ok M) :
+    M.length = evs.length ∧
+    ∀ k (hk : k < evs.length),
+      actEventErr p ig w.cues evs[k] = none ∧
+      (M.getD k []).length = w.outcomes.length ∧
+      ∀ i (hi : i < w.outcomes.length),
+        (M.getD k []).getD i 0 = sumOver (w.get w.outcomes[i]) (contribCues p w.cues evs[k]) :=
+  activation_matrix_spec p ig w hno hnc evs M
+    (by rw [← activation_mp_eq_single p ig w evs order init hperm hsize]; exact h)
+
+/-- a store outside the buffer is not hidden by the model: a task whose event
+    index is beyond the buffer makes the run fail (so `some` in
+    `mp_cells_written_once` says something) -/
+theorem mp_store_outside_reported {S : Type} [Add S] [Zero S] (w : LW S) (nEv : Nat) (b : MPBuf S)
+    (k : Nat) (idx : List Nat) (hrow : 0 < w.outcomes.length)
+    (hsize : b.cells.size = w.outcomes.length * nEv) (hk : w.outcomes.length * nEv ≤ k) :
+    mpTask w nEv b k idx = none :=
+  mpTask_out_of_range w nEv b k idx hrow hsize hk
+
+/-! #### non-vacuity of the multi-process theorems (ℤ) -/
+
+/-- `activation_mp_eq_single` with EVERY hypothesis instantiated: three events,
+    completion order 2, 0, 1, a buffer full of garbage -/
+example :
+    activationMatrixMP .keep true exW [["a", "c", "c"], ["b", "q"], []] [2, 0, 1] #[9, 9, 9, 9, 9, 9]
+      = activationMatrix .keep true exW [["a", "c", "c"], ["b", "q"], []] :=
+  activation_mp_eq_single .keep true exW _ [2, 0, 1] #[9, 9, 9, 9, 9, 9] (by decide) (by decide)
+
+/-- the model runs (kernel-evaluated): same matrix for two orders and two
+    initial contents; the parent's errors are those of the single-process path -/
+example :
+    activationMatrixMP .keep true exW [["a", "c", "c"], ["b", "q"], []] [2, 0, 1] #[9, 9, 9, 9, 9, 9]
+      = .ok [[7, 70], [2, 20], [0, 0]] ∧
+    activationMatrixMP .keep true exW [["a", "c", "c"], ["b", "q"], []] [1, 2, 0] (mpZeros 2 3)
+      = .ok [[7, 70], [2, 20], [0, 0]] ∧
+    activationMatrixMP .keep false exW [["a", "c", "c"], ["b", "q"], []] [1, 2, 0] (mpZeros 2 3)
+      = .error .key ∧
+    activationMatrixMP .error true exW [["a"], ["a", "c", "c"]] [1, 0] (mpZeros 2 2) = .error .value := by
+  refine ⟨by decide +kernel, by decide +kernel, by decide +kernel, by decide +kernel⟩
+
+/-- `mp_cells_written_once` instantiated: the trace of the run in order 2, 0, 1
+    on the 2×3 buffer, and the buffer as the code returns it (outcomes × events) -/
+example :
+    ∃ b, mpRun exW [[0, 2, 2], [1], []] [2, 0, 1] ⟨#[9, 9, 9, 9, 9, 9], []⟩ = some b ∧
+      b.written = [2, 5, 0, 3, 1, 4] ∧
+      mpByOutcome 2 3 b.cells = [[7, 2, 0], [70, 20, 0]] :=
+  ⟨⟨#[7, 2, 0, 70, 20, 0], [2, 5, 0, 3, 1, 4]⟩, by decide +kernel, by decide +kernel, by decide +kernel⟩
+
+example : ([2, 0, 1] : List Nat).Perm (List.range 3) ∧ (#[9, 9, 9, 9, 9, 9] : Array ℤ).size = 2 * 3 := by
+  decide
+
+/-- **negative example (seeded change C12_b)**: a schedule that hands every
+    worker `len / n_jobs` events and drops the remaining `len % n_jobs` ones
+    (for `len < n_jobs`: schedules nothing — `starmap(…, chunksize=0)`) is NOT a
+    permutation of the event indices and does NOT produce the matrix: with one
+    event and two jobs the zero buffer comes back unchanged, with three events
+    and two jobs the last event's column stays zero. -/
+theorem mp_dropped_tail_differs :
+    ¬ (mpOrderDroppingTail 1 2).Perm (List.range 1) ∧
+    activationMatrixMP .keep true exW [["a", "c", "c"]] (mpOrderDroppingTail 1 2) (mpZeros 2 1)
+      = .ok [[0, 0]] ∧
+    activationMatrix .keep true exW [["a", "c", "c"]] = .ok [[7, 70]] ∧
+    ¬ (mpOrderDroppingTail 3 2).Perm (List.range 3) ∧
+    activationMatrixMP .keep true exW [["a", "c", "c"], [], ["b", "q"]] (mpOrderDroppingTail 3 2) (mpZeros 2 3)
+      = .ok [[7, 70], [0, 0], [0, 0]] ∧
+    activationMatrix .keep true exW [["a", "c", "c"], [], ["b", "q"]] = .ok [[7, 70], [0, 0], [2, 20]] := by
+  refine ⟨by decide, by decide +kernel, by decide +kernel, by decide, by decide +kernel, by decide +kernel⟩
 
 /-! ### lemmas (not property theorems) -/
 
